@@ -209,8 +209,16 @@ fn in_string_map(src: &str) -> Vec<bool> {
     let mut v = vec![false; src.len() + 1];
     let mut in_string = false;
     let mut escaped = false;
+    let mut in_comment = false;
+    let mut prev_slash = false;
     for (i, c) in src.char_indices() {
         v[i] = in_string;
+        if in_comment {
+            if c == '\n' {
+                in_comment = false;
+            }
+            continue;
+        }
         if in_string {
             if escaped {
                 escaped = false;
@@ -219,8 +227,20 @@ fn in_string_map(src: &str) -> Vec<bool> {
             } else if c == '"' {
                 in_string = false;
             }
+            prev_slash = false;
         } else if c == '"' {
             in_string = true;
+            prev_slash = false;
+        } else if c == '/' {
+            if prev_slash {
+                // `//` outside a string: the scanner skips to the end of the line
+                in_comment = true;
+                prev_slash = false;
+            } else {
+                prev_slash = true;
+            }
+        } else {
+            prev_slash = false;
         }
     }
     v[src.len()] = in_string;
@@ -266,13 +286,24 @@ pub fn remove_blank_lines(src: &str) -> String {
     out
 }
 
+/// Delete every comment; a line that held only a comment disappears with it.
 pub fn remove_comments(src: &str, ast: &Program) -> String {
     let toks = comment_tokens(src, ast);
     let mut out = String::new();
     let mut last = 0;
     for t in toks {
-        out.push_str(src[last..t.pos].trim_end_matches([' ', '\t']));
+        let before = src[last..t.pos].trim_end_matches([' ', '\t']);
+        out.push_str(before);
         last = t.end;
+        // own-line comment: also swallow its line break
+        let line_start_is_blank = out.is_empty() || out.ends_with('\n');
+        if line_start_is_blank {
+            if src[last..].starts_with("\r\n") {
+                last += 2;
+            } else if src[last..].starts_with('\n') {
+                last += 1;
+            }
+        }
     }
     out.push_str(&src[last..]);
     out
@@ -424,54 +455,73 @@ pub fn classify(src: &str, v: &Verdict) -> String {
     }
     let still = |s: &str| check_source(s).kind() == kind;
     // `//` that the formatter's quote-toggling scanner takes for a comment although it is string
-    // content (a string literal inside an interpolation hole flips the scanner's state)
+    // content (a string literal inside an interpolation hole flips the scanner's state). Repair:
+    // blot out the slashes of every such phantom comment — repeatedly, since removing one changes
+    // the scanner's state for the rest of the text.
     {
-        let ism = in_string_map(src);
-        let truth: Vec<(usize, usize)> = comment_tokens(src, &ast).iter().map(|t| (t.pos, t.end)).collect();
-        let b = src.as_bytes();
-        let mut i = 0;
-        let mut phantom = vec![];
-        while i + 1 < b.len() {
-            if let Some(&(_, e)) = truth.iter().find(|(p, _)| *p == i) {
-                i = e;
-                continue;
+        let mut cur = src.to_string();
+        let mut changed = false;
+        for _ in 0..8 {
+            let Ok(Ok(a)) = catch(|| parse(&cur)) else { break };
+            let ism = in_string_map(&cur);
+            let truth: Vec<(usize, usize)> = comment_tokens(&cur, &a).iter().map(|t| (t.pos, t.end)).collect();
+            let b = cur.as_bytes();
+            let mut i = 0;
+            let mut phantom = vec![];
+            while i + 1 < b.len() {
+                if let Some(&(_, e)) = truth.iter().find(|(p, _)| *p == i) {
+                    i = e;
+                    continue;
+                }
+                if b[i] == b'/' && b[i + 1] == b'/' && !ism[i] {
+                    phantom.push(i);
+                    i = cur[i..].find('\n').map(|e| i + e).unwrap_or(cur.len());
+                    continue;
+                }
+                i += 1;
             }
-            if b[i] == b'/' && b[i + 1] == b'/' && !ism[i] {
-                phantom.push(i);
-                i = src[i..].find('\n').map(|e| i + e).unwrap_or(src.len());
-                continue;
+            if phantom.is_empty() {
+                break;
             }
-            i += 1;
+            let mut rep = cur.as_bytes().to_vec();
+            // only the first one: the others may stop being phantoms once it is gone
+            let p = phantom[0];
+            let e = cur[p..].find('\n').map(|e| p + e).unwrap_or(cur.len());
+            for k in p..e {
+                if rep[k] == b'/' {
+                    rep[k] = b'_';
+                }
+            }
+            let Ok(rep) = String::from_utf8(rep) else { break };
+            cur = rep;
+            changed = true;
         }
-        if !phantom.is_empty() {
-            let mut rep = src.as_bytes().to_vec();
-            for p in phantom {
-                let e = src[p..].find('\n').map(|e| p + e).unwrap_or(src.len());
-                for k in p..e {
-                    if rep[k] == b'/' {
-                        rep[k] = b'_';
-                    }
-                }
-            }
-            if let Ok(rep) = String::from_utf8(rep) {
-                if !still(&rep) {
-                    return "string-content-taken-for-comment".into();
-                }
-            }
+        if changed && !still(&cur) {
+            return "string-content-taken-for-comment".into();
         }
     }
+    if kind == "output-unparseable" {
+        let dbg = format!("{ast:?}");
+        if dbg.contains("Hole(") && dbg.contains("Resource(") {
+            return "resource-type-in-string-hole".into();
+        }
+    }
+    // trivia: which of {blank lines, comments} must go for this failure to disappear
     let nb = remove_blank_lines(src);
-    if nb != src && !still(&nb) {
-        return "blank-line".into();
-    }
     let nc = remove_comments(src, &ast);
-    if nc != src && !still(&nc) {
-        return "comment".into();
-    }
-    // a comment on its own line leaves a blank line behind: remove that too
-    let ncb = remove_blank_lines(&nc);
-    if ncb != src && ncb != nc && !still(&ncb) {
-        return if nb == src { "comment".into() } else { "blank-line+comment".into() };
+    let e_b = nb != src && !still(&nb);
+    let e_c = nc != src && !still(&nc);
+    match (e_b, e_c) {
+        // either removal alone cures it: the failure needs a blank line *and* a comment
+        (true, true) => return "blank-line+comment".into(),
+        (true, false) => return "blank-line".into(),
+        (false, true) => return "comment".into(),
+        (false, false) => {
+            let nbc = remove_blank_lines(&nc);
+            if nbc != src && !still(&nbc) {
+                return "blank-line+comment".into();
+            }
+        }
     }
     let cr = normalize_cr(src);
     if cr != src && !still(&cr) {
